@@ -36,8 +36,40 @@ func sealed(typ byte, data []byte, o gmref.SealOpt) func(q *gmref.Peer) error {
 	return func(q *gmref.Peer) error { return q.WriteRaw(typ, q.Seal(typ, data, o)) }
 }
 
+func isTLS(suite uint16) bool { return suite == gmref.SuiteAESCBC || suite == gmref.SuiteAESGCM }
+func isCBCSuite(suite uint16) bool {
+	return suite == gmref.SuiteCBC || suite == gmref.SuiteAESCBC
+}
+
+// refIdentity is what the reference peer holds as the server of the given suite's profile.
+func refIdentity(suite uint16, libIsClient bool) gmref.Identity {
+	if !libIsClient {
+		return gmref.Identity{}
+	}
+	if isTLS(suite) {
+		p := tlsk.Get()
+		return gmref.Identity{Certs: [][]byte{p.RSA.Certificate[0]}, RSAKey: p.RSAKey}
+	}
+	return tlsk.ServerIdentity()
+}
+
+func refSetup(suite uint16) func(q *gmref.Peer) {
+	return func(q *gmref.Peer) {
+		if isTLS(suite) {
+			q.UseTLS()
+		}
+		q.Suites = []uint16{suite}
+	}
+}
+
 func libConfig(suite uint16, libIsClient bool) *gmtls.Config {
 	p := tlsk.Get()
+	if isTLS(suite) {
+		if libIsClient {
+			return &gmtls.Config{RootCAs: p.StdRootsG, ServerName: tlsk.ServerName, Time: tlsk.FixedTime, Rand: wire.NewRand(51), CipherSuites: []uint16{suite}, MinVersion: 0x0303, MaxVersion: 0x0303}
+		}
+		return &gmtls.Config{Certificates: []gmtls.Certificate{p.RSA}, Time: tlsk.FixedTime, Rand: wire.NewRand(52), CipherSuites: []uint16{suite}, MinVersion: 0x0303, MaxVersion: 0x0303}
+	}
 	if libIsClient {
 		return &gmtls.Config{GMSupport: &gmtls.GMSupport{}, RootCAs: p.Roots, ServerName: tlsk.ServerName, Time: tlsk.FixedTime, Rand: wire.NewRand(51), CipherSuites: []uint16{suite}}
 	}
@@ -90,16 +122,12 @@ func runCraftedHC(suite uint16, libIsClient bool, prefix int, cr crafted, hc boo
 		}
 		return err
 	}
-	id := tlsk.ServerIdentity()
-	if !libIsClient {
-		id = gmref.Identity{}
-	}
-	o := tlsk.RunLibVsRef(libConfig(suite, libIsClient), libIsClient, tlsk.App{Writes: [][]byte{[]byte(libFirst)}, CloseWriteAfterWrites: hc}, id, 53, func(q *gmref.Peer) { q.Suites = []uint16{suite} }, &gmref.Script{Data: data}, nil)
+	o := tlsk.RunLibVsRef(libConfig(suite, libIsClient), libIsClient, tlsk.App{Writes: [][]byte{[]byte(libFirst)}, CloseWriteAfterWrites: hc}, refIdentity(suite, libIsClient), 53, refSetup(suite), &gmref.Script{Data: data}, nil)
 	return o, pre
 }
 
 func craftedCatalogue(suite uint16, thorough bool) []crafted {
-	isCBC := suite == gmref.SuiteCBC
+	isCBC := isCBCSuite(suite)
 	var cs []crafted
 	add := func(c crafted) {
 		if (isCBC && c.cbc) || (!isCBC && c.gcm) {
@@ -141,8 +169,11 @@ func craftedCatalogue(suite uint16, thorough bool) []crafted {
 		return fmt.Errorf("no record to reflect")
 	})
 	both("unprotected application-data record after the keys were activated", false, nil, func(q *gmref.Peer) error { return q.WriteRaw(gmref.RecApp, msg) })
-	for _, v := range []uint16{0x0100, 0x0102, 0x0301, 0x0303} {
+	for _, v := range []uint16{0x0100, 0x0102, 0x0301, 0x0303, 0x0101} {
 		v := v
+		if own := map[bool]uint16{true: 0x0303, false: 0x0101}[isTLS(suite)]; v == own {
+			continue // the connection's own version: not a change
+		}
 		add(crafted{name: fmt.Sprintf("sender protects and labels the record with version %04x", v), either: true, cbc: true, gcm: true, payload: msg, emit: func(q *gmref.Peer) error {
 			old := q.Vers
 			q.Vers = v
@@ -190,8 +221,13 @@ func craftedCatalogue(suite uint16, thorough bool) []crafted {
 				pads = append(pads, p)
 			}
 		}
+		macLen := 32
+		if isTLS(suite) {
+			macLen = 20
+		}
 		for _, p := range pads {
-			L, k := 15-p%16, p/16
+			// data length whose minimal padding is p%16 for this suite's MAC length
+			L, k := ((15-p%16-macLen)%16+16)%16, p/16
 			data := pu.Msg(p, L)
 			for j := 0; j <= p; j++ {
 				masks := []byte{0x01}
@@ -404,11 +440,7 @@ func refReceiveUnit(suite uint16, libIsClient bool, thorough bool) harness.Unit 
 			}
 			return err
 		}
-		id := tlsk.ServerIdentity()
-		if !libIsClient {
-			id = gmref.Identity{}
-		}
-		o := tlsk.RunLibVsRef(libConfig(suite, libIsClient), libIsClient, tlsk.App{Writes: writes, Expect: -1}, id, 54, func(q *gmref.Peer) { q.Suites = []uint16{suite} }, &gmref.Script{Data: data}, nil)
+		o := tlsk.RunLibVsRef(libConfig(suite, libIsClient), libIsClient, tlsk.App{Writes: writes, Expect: -1}, refIdentity(suite, libIsClient), 54, refSetup(suite), &gmref.Script{Data: data}, nil)
 		tag := fmt.Sprintf("suite=%04x library-client=%v writes %d payloads (sizes 0..%d and boundaries)", suite, libIsClient, len(sizes), top)
 		c.Add("evaluations", int64(len(sizes)))
 		for _, n := range sizes {
@@ -446,10 +478,10 @@ func refReceiveUnit(suite uint16, libIsClient bool, thorough bool) harness.Unit 
 
 func refUnits(tier string) []harness.Unit {
 	var u []harness.Unit
-	for _, s := range []uint16{gmref.SuiteCBC, gmref.SuiteGCM} {
+	for _, s := range []uint16{gmref.SuiteCBC, gmref.SuiteGCM, gmref.SuiteAESCBC, gmref.SuiteAESGCM} {
 		for _, lc := range []bool{true, false} {
 			parts := 1
-			if s == gmref.SuiteCBC {
+			if isCBCSuite(s) {
 				parts = 4
 				if tier == "thorough" {
 					parts = 16
